@@ -31,6 +31,7 @@ import (
 	"math/big"
 	"sort"
 	"strings"
+	"sync/atomic"
 	"testing"
 	"time"
 
@@ -192,6 +193,10 @@ func (s *c12DoneSpy) waitUntilAllDone(ctx context.Context) (*signing.Result, uin
 
 const c12LoopStart = uint64(1000)
 
+// session value of a generated message that stands for "left over from an
+// earlier attempt"
+const c12StaleSession = "c12-earlier-attempt"
+
 func c12AttemptBlocks(k uint64) (annStart, annEnd, timeout uint64) {
 	start := c12LoopStart + (k-1)*uint64(signingAttemptMaximumBlocks())
 	annStart = start + signingAttemptAnnouncementDelayBlocks
@@ -214,6 +219,8 @@ type c12LoopRun struct {
 	selfOp  int
 	message *big.Int
 	log     []string
+	// handlers installed by the done checks of earlier attempts
+	earlier map[int]bool
 }
 
 func (r *c12LoopRun) logf(format string, args ...any) {
@@ -294,21 +301,45 @@ func (r *c12LoopRun) settle() {
 	}
 	r.channel.receiveWire(r.world.pubs[r.selfOp], (&signingDoneMessage{}).Type(), bytes)
 	r.channel.handOver()
-	if !verifkit.Eventually(c12WaitLimit, r.channel.settled) {
+	if !verifkit.Eventually(c12WaitLimit, func() bool { return r.channel.settledFor(r.earlier, false) }) {
 		c12Inconclusive(r.t, "the receivers did not take the handed-over messages in time")
+	}
+	// Receivers of earlier attempts are gone on the unchanged tree (their
+	// contexts are done, nothing is handed to them). Should one still be
+	// installed it gets a moment to process what it was handed, without
+	// consequences when it does not (its consumer may have ended).
+	for i := 0; i < 400 && !r.channel.settledFor(r.earlier, true); i++ {
+		time.Sleep(200 * time.Microsecond)
 	}
 }
 
-// gone waits, bounded by scheduling rounds rather than by the clock on the
-// wall, until the context of a receiver is done.
+// c12Gone waits until the context of a receiver is done. On the unchanged
+// tree the receiver of an abandoned attempt is cancelled by a goroutine that
+// has just been released by the block clock, i.e. after a few scheduling
+// rounds; the wait is bounded by scheduling rounds (sleeps that yield the
+// processor), not by a deadline, and generously. When the bound is hit the
+// history simply goes on with the receiver still listening (the channel keeps
+// delivering to it, as the real one would). Once a receiver has outlived the
+// long bound in this process, later waits use a short one: a tree that does
+// not cancel its receivers would otherwise cost seconds per case.
+var c12ReceiverOutlivedBound atomic.Bool
+
 func c12Gone(ctx context.Context) bool {
-	for i := 0; i < 20000; i++ {
+	rounds := 4000
+	if c12ReceiverOutlivedBound.Load() {
+		rounds = 40
+	}
+	for i := 0; i < rounds; i++ {
 		if ctx.Err() != nil {
 			return true
 		}
-		time.Sleep(150 * time.Microsecond)
+		time.Sleep(200 * time.Microsecond)
 	}
-	return ctx.Err() != nil
+	if ctx.Err() != nil {
+		return true
+	}
+	c12ReceiverOutlivedBound.Store(true)
+	return false
 }
 
 func TestVerif_C12_SigningLoopAttempts(t *testing.T) {
@@ -360,7 +391,7 @@ func TestVerif_C12_SigningLoopAttempts(t *testing.T) {
 		events := make(chan c12LoopEvent, 4096)
 		clock := c12NewClock(c12LoopStart, events)
 		run := &c12LoopRun{t: t, world: world, sc: sc, channel: channel, clock: clock, events: events,
-			seen: map[uint64]bool{}, self: self, selfOp: selfOp, message: message}
+			seen: map[uint64]bool{}, self: self, selfOp: selfOp, message: message, earlier: map[int]bool{}}
 
 		// as in signingExecutor.sign
 		ann := announcer.New(protocolID, se.broadcastChannel, se.membershipValidator)
@@ -418,17 +449,22 @@ func TestVerif_C12_SigningLoopAttempts(t *testing.T) {
 		}
 
 		e := run.next("first attempt")
+		lastListener := -1
 		for k := uint64(1); !finished; k++ {
 			annStart, annEnd, timeout := c12AttemptBlocks(k)
+			if lastListener >= 0 {
+				run.earlier[lastListener] = true
+				lastListener = -1
+			}
 			if e.kind != "wait" || e.attempt != k {
 				fail("expected the loop to wait for the announcement of attempt %d, got %s (attempt %d)", k, e.kind, e.attempt)
 			}
 			if k > maxAttempts {
 				// the signing is given up
 				cancel()
-				clock.advanceTo(annStart)
-				e = run.next("loop end")
-				if e.kind != "returned" || e.loopResult != nil {
+				for e = run.next("loop end"); e.kind != "returned"; e = run.next("loop end") {
+				}
+				if e.loopResult != nil {
 					fail("the loop did not end without a result after it was cancelled: %s", e.kind)
 				}
 				run.logf("cancelled before attempt %d", k)
@@ -438,9 +474,7 @@ func TestVerif_C12_SigningLoopAttempts(t *testing.T) {
 				// attempt k-1 is long over when the next one is announced:
 				// its timeout block has passed ...
 				_, _, previousTimeout := c12AttemptBlocks(k - 1)
-				if run.seen[previousTimeout] {
-					clock.advanceTo(previousTimeout)
-				}
+				clock.advanceTo(previousTimeout)
 				// ... and the receivers bound to it are gone
 				for _, l := range listeners {
 					if !c12Gone(l) {
@@ -493,14 +527,22 @@ func TestVerif_C12_SigningLoopAttempts(t *testing.T) {
 				}
 				continue
 			}
+			if e.kind == "returned" && e.err != nil && strings.Contains(e.err.Error(), "cannot select members") {
+				// the retry algorithm found no member set for this attempt:
+				// the signing ends (member selection is not this property)
+				caseTags["attempt:no-member-set"] = true
+				run.logf("attempt %d: no member set", k)
+				break
+			}
 			if e.kind != "listen" || e.attempt != k {
-				fail("expected the done check of attempt %d to start listening, got %s", k, e.kind)
+				fail("expected the done check of attempt %d to start listening, got %s (%v)", k, e.kind, e.err)
 			}
 			if e.timeoutBlock != timeout {
 				fail("attempt %d listens with timeout block %d, expected %d", k, e.timeoutBlock, timeout)
 			}
 			members := e.members
 			listenerCtx := channel.handlerContext(e.handler)
+			lastListener = e.handler
 			allowed := map[group.MemberIndex]bool{}
 			included := false
 			for _, m := range members {
@@ -531,31 +573,39 @@ func TestVerif_C12_SigningLoopAttempts(t *testing.T) {
 					}
 					p := &signingDoneMessage{senderID: m.idx, message: new(big.Int).Set(message), attemptNumber: k,
 						signature: sigGood, endBlock: annEnd + uint64(ordinal)}
-					tag := fmt.Sprintf("attempt=%d end=%d", k, p.endBlock)
-					if m.session != c12Session {
+					tag := ""
+					earlier := func() {
+						// a confirmation of an earlier attempt, valid for
+						// that attempt
+						j := uint64(rapid.IntRange(1, int(k)-1).Draw(t, "earlierAttempt"))
+						_, jEnd, jTimeout := c12AttemptBlocks(j)
+						p.attemptNumber = j
+						p.endBlock = jEnd + uint64(rapid.IntRange(1, int(jTimeout-jEnd)).Draw(t, "earlierEndBlock"))
+						tag = "confirmation-of-EARLIER-attempt"
+					}
+					switch {
+					case m.session == c12Session:
+						if rapid.IntRange(0, 11).Draw(t, "otherSignature") == 0 {
+							p.signature = sigOther
+							tag = "other-signature"
+						}
+					case m.session == c12StaleSession && k > 1:
+						earlier()
+					default:
 						variant := rapid.IntRange(0, 5).Draw(t, "otherSession")
 						switch {
 						case variant <= 2 && k > 1:
-							// a confirmation of an earlier attempt, valid
-							// for that attempt
-							j := uint64(rapid.IntRange(1, int(k)-1).Draw(t, "earlierAttempt"))
-							_, jEnd, jTimeout := c12AttemptBlocks(j)
-							p.attemptNumber = j
-							p.endBlock = jEnd + uint64(rapid.IntRange(1, int(jTimeout-jEnd)).Draw(t, "earlierEndBlock"))
-							tag = fmt.Sprintf("EARLIER attempt=%d end=%d", j, p.endBlock)
-						case variant == 3:
+							earlier()
+						case variant == 3 || variant <= 2:
 							p.attemptNumber = k + 1
-							tag = fmt.Sprintf("later attempt=%d", k+1)
+							tag = "confirmation-of-later-attempt"
 						case variant == 4:
 							p.message = new(big.Int).Add(message, big.NewInt(1))
-							tag = "other message"
+							tag = "other-message"
 						default:
 							p.endBlock = timeout + 1
-							tag = "end block after the timeout"
+							tag = "end-block-after-timeout"
 						}
-					} else if rapid.IntRange(0, 11).Draw(t, "otherSignature") == 0 {
-						p.signature = sigOther
-						tag += " other signature"
 					}
 					return p, p.Type(), true, tag
 				},
@@ -564,6 +614,15 @@ func TestVerif_C12_SigningLoopAttempts(t *testing.T) {
 			for _, m := range members {
 				if m != self && rapid.IntRange(0, 7).Draw(t, "confirms") != 0 {
 					plan = append(plan, c12PlanMsg(t, sc, pool, rec, c12Msg{idx: m, op: sc.seats[int(m)-1], session: c12Session, kind: 0}))
+				}
+			}
+			if k > 1 {
+				// late retransmissions: members of this attempt whose
+				// confirmation of an earlier attempt is still travelling
+				for _, m := range members {
+					if rapid.IntRange(0, 2).Draw(t, "lateRetransmission") == 0 {
+						plan = append(plan, c12PlanMsg(t, sc, pool, rec, c12Msg{idx: m, op: sc.seats[int(m)-1], session: c12StaleSession, kind: 0}))
+					}
 				}
 			}
 			for i, extra := 0, rapid.IntRange(0, 4).Draw(t, "otherMessages"); i < extra; i++ {
@@ -588,7 +647,10 @@ func TestVerif_C12_SigningLoopAttempts(t *testing.T) {
 				if _, dup := want[p.msg.idx]; dup && p.want {
 					p.want = false
 					p.extraOK, p.extraTag = false, "second-confirmation"
-					p.text += "(second)"
+					p.text = strings.Replace(p.text, "->TAKEN", "->ignored(second confirmation)", 1)
+				}
+				if m, is := p.payload.(*signingDoneMessage); is && !strings.Contains(p.text, "{") {
+					p.text += "{" + c12DoneContent(m) + "}"
 				}
 				if p.want {
 					m := p.payload.(*signingDoneMessage)
@@ -687,9 +749,14 @@ func TestVerif_C12_SigningLoopAttempts(t *testing.T) {
 			complete := len(want) == len(members)
 			agreed := true
 			var latest uint64
+			var common *tecdsa.Signature
 			for _, m := range members {
-				if s, ok := wantSig[m]; ok && !s.Equals(sigGood) {
-					agreed = false
+				if s, ok := wantSig[m]; ok {
+					if common == nil {
+						common = s
+					} else if !s.Equals(common) {
+						agreed = false
+					}
 				}
 				if wantEnd[m] > latest {
 					latest = wantEnd[m]
@@ -725,7 +792,7 @@ func TestVerif_C12_SigningLoopAttempts(t *testing.T) {
 			switch {
 			case complete && agreed:
 				caseTags["decision:complete"] = true
-				if e.err != nil || e.result == nil || !e.result.Signature.Equals(sigGood) || e.endBlock != latest {
+				if e.err != nil || e.result == nil || !e.result.Signature.Equals(common) || e.endBlock != latest {
 					fail("every member of attempt %d confirmed it (latest end block %d) but the done check answered result=%v end=%d err=%v",
 						k, latest, e.result, e.endBlock, e.err)
 				}
@@ -733,7 +800,7 @@ func TestVerif_C12_SigningLoopAttempts(t *testing.T) {
 				if e.kind != "returned" || e.err != nil || e.loopResult == nil {
 					fail("attempt %d is complete but the loop went on with %s (err %v)", k, e.kind, e.err)
 				}
-				if !e.loopResult.result.Signature.Equals(sigGood) || e.loopResult.latestEndBlock != latest || e.loopResult.attemptTimeoutBlock != timeout {
+				if !e.loopResult.result.Signature.Equals(common) || e.loopResult.latestEndBlock != latest || e.loopResult.attemptTimeoutBlock != timeout {
 					fail("the loop reports signature %v, latest end block %d, timeout block %d; attempt %d was confirmed with latest end block %d and times out at %d",
 						e.loopResult.result.Signature, e.loopResult.latestEndBlock, e.loopResult.attemptTimeoutBlock, k, latest, timeout)
 				}
